@@ -1,3 +1,13 @@
-/-  C16/Theorems — the ledger for property C16 (every theorem here is audited).  Placeholder. -/
+/-
+  C16/Theorems — the ledger for property C16.  Every `theorem` in this file is audited
+  (`#print axioms` ⊆ {propext, Classical.choice, Quot.sound}) on every run.
+-/
+import OttoVerif.C16.Spec
 namespace OttoVerif.C16.Thm
+open OttoVerif.F64 OttoVerif.C16
+
+/-- same Go type in, same value out (runtime.go:216) -/
+theorem convertNumeric_same_type (v : Num) : convertNumeric v v.ty = .ok v := by
+  simp [convertNumeric]
+
 end OttoVerif.C16.Thm
